@@ -28,7 +28,7 @@ ASSUMPTIONS = [
 ]
 SHARDS = {"quick": 8, "thorough": 16}
 MIN_REACH = {
-    "samplers_whose_choices_mix_numbers_and_text": {"quick": 5, "thorough": 80},
+    "samplers_whose_choices_mix_numbers_and_text": {"quick": 2, "thorough": 80},
     "runs_whose_outputs_are_all_nan": {"quick": 8, "thorough": 150},
     "tables_started_from_rows_given_at_construction": {"quick": 3, "thorough": 60},
     "runs_naming_a_constant_at_the_call": {"quick": 20, "thorough": 400},
